@@ -184,6 +184,12 @@ func c02One(h *H, i int) {
 		if k.clientPV < k.rev {
 			k.clientPV = k.rev
 		}
+		if k.srvRev != 0 {
+			k.clientPV = k.rev
+			if k.srvRev <= k.rev {
+				k.srvRev = k.rev + 3
+			}
+		}
 	}
 	k.comp = c02Modes[i%len(c02Modes)]
 	q, expectFail := c02GenQuery(h, k)
